@@ -264,8 +264,9 @@ class Gen:
             al = r.choice([None, None, None, [1, 3], [2, 4, 5], [3]])
             kind = ('KVar', Z(mn), optZ(mx), None if al is None else Some([Z(a) for a in al]))
         opt = r.random() < self.pf['p_opt']
-        rel = r.choice([None, None, None, 0, 2, 5])
-        due = r.choice(self.pf.get('dues', [None, None, None, None, 6, 9, 15, 25]))
+        # release dates and due dates overlap (a due date may lie before another task's release date)
+        rel = r.choice([None, None, None, 0, 2, 5, 6, 9])
+        due = r.choice(self.pf.get('dues', [None, None, None, None, 3, 6, 9, 15, 25]))
         dl = r.random() < 0.5
         work = r.choice([0, 0, 0, 0, 2, 4])
         self.ops.append(('ONewTask', N(i), kind, opt, Z(work), optZ(rel), optZ(due), dl, Z(r.choice([0, 1, 1, 2, 5]))))
@@ -325,6 +326,15 @@ class Gen:
         if opts and x < 0.8:
             return ('FB', ('BSched', N(r.choice(opts))))
         return ('FOr', [('FLe', va, ('TC', k)), ('FGt', vb, ('TC', k))])
+
+    def cond_form(self):
+        # the condition of Implies / IfThenElse may be a plain Python bool (a configuration flag): FT / FF
+        x = self.r.random()
+        if x < 0.08:
+            return ('FT',)
+        if x < 0.16:
+            return ('FF',)
+        return self.raw_form()
 
     def operand(self):
         r = self.r
@@ -394,9 +404,9 @@ class Gen:
             elif k == 'CXor':
                 e = (k, self.operand(), self.operand())
             elif k == 'CImplies':
-                e = (k, self.raw_form(), [self.operand() for _ in range(r.randint(1, 2))])
+                e = (k, self.cond_form(), [self.operand() for _ in range(r.randint(1, 2))])
             elif k == 'CIte':
-                e = (k, self.raw_form(), [self.operand() for _ in range(r.randint(1, 2))],
+                e = (k, self.cond_form(), [self.operand() for _ in range(r.randint(1, 2))],
                      [self.operand() for _ in range(r.randint(1, 2))])
             else:
                 oc = [c for c, d in self.cons.items() if d['opt']]
